@@ -220,6 +220,41 @@ HistCase(h, d) ==
      deriv |-> [k \in 1..Len(h) |-> DerivOut(Accepted(<<>>, SubSeq(h, 1, k)), SubSeq(h, 1, k))],
      avg   |-> [k \in 1..Len(h) |-> AvgOut(Accepted(<<>>, SubSeq(h, 1, k)), d)]]
 
+(* ---------------- Delay / Average in time mode (delay D given in half seconds) ---------------- *)
+(* P(H, tau): the piecewise-linear interpolant of the accepted history at time tau (0 <= tau <= last time).               *)
+(* Delay(time):   the value D before the present time, interpolated; the initial value while less than D has elapsed.     *)
+(* Average(time): the mean of the interpolant over the last D (over the elapsed time while less than D has elapsed).      *)
+(* Histories: strictly increasing stamps with steps shorter than D, and repeated stamps (a step's Newton iterations: the   *)
+(* last value is replaced).  Rewound stamps are left to the step mode (the time-mode memory is trimmed on every call).     *)
+Seg(H, tau) == CHOOSE k \in 1..(Len(H) - 1) : H[k].t <= tau /\ tau <= H[k + 1].t
+PAt(H, tau) == IF Len(H) = 1 \/ tau <= H[1].t THEN R(H[1].u)
+               ELSE LET k == Seg(H, tau)
+                    IN RAdd(R(H[k].u), Norm((H[k + 1].u - H[k].u) * (tau - H[k].t), H[k + 1].t - H[k].t))
+DelayTOut(H, D) == LET t == H[Len(H)].t IN IF t - D <= 0 THEN R(H[1].u) ELSE PAt(H, t - D)
+(* integral of the interpolant over [a, t]: the clipped first segment plus the whole segments after it *)
+RECURSIVE SegSum(_, _)
+SegSum(H, k) == IF k >= Len(H) THEN RZero ELSE RAdd(Norm((H[k].u + H[k + 1].u) * (H[k + 1].t - H[k].t), 2), SegSum(H, k + 1))
+AvgTOut(H, D) ==
+    LET t == H[Len(H)].t
+        a == IF t - D > 0 THEN t - D ELSE 0
+    IN IF Len(H) = 1 THEN R(H[1].u)
+       ELSE LET k == Seg(H, a)
+                first == RMul(Norm(H[k + 1].t - a, 2), RAdd(PAt(H, a), R(H[k + 1].u)))
+            IN RDiv(RAdd(first, SegSum(H, k + 1)), R(t - a))
+TimeModeCalls(n, D) == { h \in [1..n -> [t : 0..7, u : {1, 2, 5}]] :
+                          /\ h[1].t = 0
+                          /\ \A k \in 2..n : h[k].t >= h[k - 1].t /\ h[k].t - h[k - 1].t < D /\ (h[k].t = h[k - 1].t => (k > 2 /\ h[k].t # 0))
+                          /\ \A k \in 2..n : h[k].t # 0 }
+TimeCase(h, D) == [calls |-> h, D |-> D,
+                   delay |-> [k \in 1..Len(h) |-> DelayTOut(Accepted(<<>>, SubSeq(h, 1, k)), D)],
+                   avg   |-> [k \in 1..Len(h) |-> AvgTOut(Accepted(<<>>, SubSeq(h, 1, k)), D)]]
+(* a rejected step retried with a smaller one: the last stamp is rewound to a time after the last-but-one stamp *)
+TimeModeRewinds(D) == { h \in [1..4 -> [t : 0..7, u : {1, 2, 5}]] :
+                         /\ h[1].t = 0 /\ h[2].t > 0 /\ h[3].t > h[2].t /\ h[3].t - h[2].t < D /\ h[2].t < D
+                         /\ h[4].t > h[2].t /\ h[4].t < h[3].t /\ h[3].t - D > 0 }
+(* a constant input is delayed and averaged to itself *)
+ASSUME \A h \in TimeModeCalls(3, 3) : (\A k \in 1..3 : h[k].u = 2) => (\A k \in 1..3 : REq(TimeCase(h, 3).delay[k], R(2)) /\ REq(TimeCase(h, 3).avg[k], R(2)))
+
 (* sample and hold with period P (half seconds) and offset 0: a new sample is taken at the first call whose time   *)
 (* exceeds the time of the previous sample by more than P; between samples the output holds                         *)
 RECURSIVE SampleRun(_, _, _, _)
